@@ -199,6 +199,63 @@ fn nesting_cases() -> &'static Vec<Case> {
                     }
                 }
             }
+            // shells made of an operator pair (continued fractions, nested radicals, Horner chains), right- and left-nested,
+            // over operands that make every level fail, overflow or change type: an evaluator that retries, re-evaluates
+            // or speculates on an operand doubles its work per level
+            let ops = vocab::infix(ev);
+            let cores: Vec<&str> = match ev {
+                Ev::I64 => vec!["1", "@", "(1/0)"],
+                Ev::Cpx => vec!["1", "@"],
+                _ => vec!["1", "@", "0.5", "w(-5)"],
+            };
+            let phs: Vec<Val> = match ev {
+                Ev::I64 => vec![Val::I(1), Val::I(4000000007), Val::I(i64::MAX), Val::I(0)],
+                Ev::Num => vec![Val::NI(1), Val::NI(4000000007), Val::NF(0.5), Val::NI(i64::MAX)],
+                Ev::F64 => vec![Val::F(1.0), Val::F(0.5), Val::F(1e308)],
+                Ev::Dec => vec![Val::D(dec("1")), Val::D(dec("0.5")), Val::D(dec("79228162514264337593543950335"))],
+                Ev::Cpx => vec![Val::C(1.0, 0.5)],
+            };
+            let mut fns: Vec<String> = vec!["".into(), "sqrt".into(), "abs".into()];
+            if ev != Ev::Cpx {
+                fns.push("max".into());
+            }
+            for op1 in ops.iter() {
+                for op2 in ops.iter() {
+                    for f in &fns {
+                        for core in &cores {
+                            for right in [true, false] {
+                                // right-nested: a op1 b op2 f( ... )     left-nested: f( ... ) op1 a op2 b
+                                let (open, close) = if right { (format!("@{}@{}{}(", op1, op2, f), ")".to_string()) } else { (format!("{}(", f), format!("){}@{}@", op1, op2)) };
+                                let per = char_len(&open) + char_len(&close);
+                                for depth in [11usize, 13, 16, 24, 40] {
+                                    if depth * per + char_len(core) > 250 {
+                                        continue;
+                                    }
+                                    let text = format!("{}{}{}", open.repeat(depth), core, close.repeat(depth));
+                                    for ph in &phs {
+                                        out.push(Case::new(ev, text.clone(), ph.clone()));
+                                    }
+                                    // the same with literal operands instead of the placeholder
+                                    out.push(Case::new(ev, text.replace('@', "1"), Val::default_for(ev)));
+                                }
+                            }
+                        }
+                    }
+                    // flat alternating chains  @ op1 @ op2 @ op1 @ ...
+                    for n in [12usize, 24, 60, 120] {
+                        let mut text = String::from("@");
+                        for k in 0..n {
+                            text.push_str(if k % 2 == 0 { op1 } else { op2 });
+                            text.push('@');
+                        }
+                        if char_len(&text) <= 256 {
+                            for ph in &phs {
+                                out.push(Case::new(ev, text.clone(), ph.clone()));
+                            }
+                        }
+                    }
+                }
+            }
         }
         out
     })
@@ -242,7 +299,7 @@ impl Prop for C02Prop {
         "C02"
     }
     fn rule(&self) -> String {
-        "Cases are (evaluator, input, placeholder); the verif_hooks counter (one tick per lexer step, parser step/loop iteration, eval call and evaluator loop iteration) is armed with exactly 4096+256*len(input). Exhaustive: every looping construct (x!, x!!, ilog, w, lambert_w, gcd, lcm, ^, pow, root, shifts, aggregates of 1..40 args) x every argument tuple from the extreme pool (0,1,2,0.5,1.2,1.0000001,170,171,1e18,60- and 400-digit literals,-1,1/0,-1/0,0/0,@ with every placeholder) per evaluator; length-scaling families n=1..256; nesting families: every function nested in itself (min/max also alternating) in the first and in the last argument position and every bracket/operator shell, to every depth that fits 256 characters, each also with a core that fails to parse (empty, dangling operator, bad literal, stray comma/bracket, arity error) and with truncated closers; then random trees over boundary operands, near-miss mutants and raw strings. non-trivial = at least one value-driven evaluator loop iteration was executed or len>=64; distinct by (evaluator,input,placeholder).".into()
+        "Cases are (evaluator, input, placeholder); the verif_hooks counter (one tick per lexer step, parser step/loop iteration, eval call and evaluator loop iteration) is armed with exactly 4096+256*len(input). Exhaustive: every looping construct (x!, x!!, ilog, w, lambert_w, gcd, lcm, ^, pow, root, shifts, aggregates of 1..40 args) x every argument tuple from the extreme pool (0,1,2,0.5,1.2,1.0000001,170,171,1e18,60- and 400-digit literals,-1,1/0,-1/0,0/0,@ with every placeholder) per evaluator; length-scaling families n=1..256; nesting families: every function nested in itself (min/max also alternating) in the first and in the last argument position and every bracket/operator shell, to every depth that fits 256 characters, each also with a core that fails to parse (empty, dangling operator, bad literal, stray comma/bracket, arity error) and with truncated closers; shells made of an operator pair (a op1 b op2 f(...) right-nested, f(...) op1 a op2 b left-nested, for every operator pair, f in {none, sqrt, abs, max}) and flat alternating chains @ op1 @ op2 @ ..., with placeholders that make every level overflow, fail or change type; then random trees over boundary operands, near-miss mutants and raw strings. non-trivial = at least one value-driven evaluator loop iteration was executed or len>=64; distinct by (evaluator,input,placeholder).".into()
     }
     fn assumptions(&self) -> Vec<String> {
         vec![
